@@ -173,8 +173,16 @@ def run_case(case, ctx):
         D = _recording(ttb.ttensor)(ttb.tensor(scale * rng.standard_normal(csz)), tf_)
         Xd = denote(D)
     else:
-        D = _recording(ttb.sumtensor)([ttb.tensor(X.copy()), Kt.copy()])
+        parts_ = [ttb.tensor(X.copy()), Kt.copy()]
         Xd = X + denote(Kt)
+        if gen.pick(case) % 2:
+            # a sum of three or five parts
+            for j_ in range([1, 3][(gen.pick(case) // 2) % 2]):
+                Xj = scale * 0.3 * rng.standard_normal(shape)
+                parts_.append(ttb.tensor(Xj.copy()) if j_ % 2 == 0 else ttb.tensor(Xj.copy()).to_sptensor())
+                Xd = Xd + Xj
+        D = _recording(ttb.sumtensor)(parts_)
+        ctx.feat(parts=len(parts_))
     D.log = []
     D.breakdown = False
     dimorder = np.array(case["dimorder"])
